@@ -614,9 +614,10 @@ where
     };
     if split_dwarf {
         let dwo = output.with_extension("dwo");
-        common_args.push(OsString::from(
-            "-D_gsplit_dwarf_path=".to_owned() + dwo.to_str().unwrap(),
-        ));
+        // (built from the raw path: a name that is not valid unicode must not panic here)
+        let mut dwo_define = OsString::from("-D_gsplit_dwarf_path=");
+        dwo_define.push(dwo.as_os_str());
+        common_args.push(dwo_define);
         // -gsplit-dwarf doesn't guarantee .dwo file if no -g is specified
         outputs.insert(
             "dwo",
